@@ -222,7 +222,7 @@ def name_pairing(F):
             continue
         own = next(iter(src_f))
         for pol, cond in guard_conditions(ei["body"], c):
-            if pol == "pat":
+            if pol in ("pat", "notpat"):
                 continue
             gf = {x["name"] for x in walk(cond) if x.get("k") == "Field" and x["name"].endswith("_names")}
             if not gf:
